@@ -165,6 +165,15 @@ func universal(sc *Scn, x *vrt.Sched, w *World) []Finding {
 				}
 			}
 		}
+		// C07: Stop waits for ever for the teardown of a connection that had a fault: its socket stays open
+		// (one descriptor lost per fault; with enough of them accept fails for good)
+		if stopBlocked && hasProp(sc, "C07") {
+			for _, n := range vnet.OpenServerEndpoints() {
+				if n == "faulty.server" {
+					addOnce("C07", "after a fault the connection is never closed: its teardown blocks for ever (a descriptor is lost per fault); "+key, blocked)
+				}
+			}
+		}
 		// C08: Stop has been called (or the client is gone) and a connection is never closed and reported
 		if stopBlocked && hasProp(sc, "C08") {
 			unreported := !sp.Srv.NoOnClose && vnet.Accepted() >= 0 && len(w.OnClose) < vnet.Accepted()
@@ -324,6 +333,18 @@ func universal(sc *Scn, x *vrt.Sched, w *World) []Finding {
 		}
 		byID[id] = ci
 	}
+	if !sp.Srv.NoOnClose && vnet.Accepted() >= 0 && len(w.OnClose) <= vnet.Accepted() {
+		// OnClose ran at most once per accepted connection: the same ID twice means two connections had it
+		// (connections that never sent a request have no other witness of their ID)
+		seenID := map[int]bool{}
+		for _, id := range w.OnClose {
+			if seenID[id] {
+				add("C09", "two connections share a ConnectionID", fmt.Sprintf("OnClose reports ID %d for two of the %d accepted connections: %v", id, vnet.Accepted(), w.OnClose))
+				break
+			}
+			seenID[id] = true
+		}
+	}
 	if stopped && !sp.Srv.NoOnClose {
 		closed := map[int]bool{}
 		for _, id := range w.OnClose {
@@ -383,7 +404,7 @@ func universal(sc *Scn, x *vrt.Sched, w *World) []Finding {
 			continue // Stop may have come before the request was read
 		}
 		for k, op := range cs.Ops {
-			if isUnbind(op) || op == "garbage" || op == "compare" || op == "starttls-silent" || op == "starttls-badhello" || op == "starttls-badhello-alert" {
+			if isUnbind(op) || op == "garbage" || op == "compare" || op == "starttls-silent" || op == "starttls-badhello" || op == "starttls-badhello-alert" || op == "tls-closewrite" {
 				break
 			}
 			if h := cs.H[k+1]; h != nil && h.Panic != "" {
